@@ -717,25 +717,29 @@ structure LDef where
 def assocSet {β} (l : List (String × β)) (k : String) (v : β) : List (String × β) :=
   if l.any (·.1 == k) then l.map (fun kv => if kv.1 == k then (k, v) else kv) else l ++ [(k, v)]
 
+abbrev Caches := List (String × LPType) × List (String × LParam) × CLookup
+
+/-- One entry of a container during `_update_caches`: a nested container is descended into (through `rec`), a
+    parameter is registered together with its parameter type. -/
+def cacheEntry (allTypes : List (String × LPType)) (allParams : List (String × LParam)) (lookup : CLookup)
+    (rec : Caches → LContainer → LoadM Caches) (acc : Caches) : LEntry → LoadM Caches
+  | .cont n => match lookup.get? n with
+    | some nc => rec acc nc
+    | none => .error .other
+  | .param n => match allParams.find? (·.1 == n) with
+    | some (_, p) => match allTypes.find? (·.1 == p.typeName) with
+      | some (_, t) => .ok (assocSet acc.1 t.name t, assocSet acc.2.1 p.name p, acc.2.2)
+      | none => .error .other
+    | none => .error .other
+
 /-- `_update_caches(sc)` of `XtcePacketDefinition.__init__`: containers, parameters and parameter types reachable
     from the container set, in encounter order. -/
 def updateCaches (allTypes : List (String × LPType)) (allParams : List (String × LParam)) (lookup : CLookup) :
-    Nat → (List (String × LPType) × List (String × LParam) × CLookup) → LContainer →
-    LoadM (List (String × LPType) × List (String × LParam) × CLookup)
+    Nat → Caches → LContainer → LoadM Caches
   | 0, _, _ => .error .other
-  | fuel + 1, (ts, ps, cs), c => do
-    let cs := assocSet cs c.name c
-    c.entries.foldlM (fun (acc : List (String × LPType) × List (String × LParam) × CLookup) e => do
-      let (ts, ps, cs) := acc
-      match e with
-      | .cont n => match lookup.get? n with
-        | some nc => updateCaches allTypes allParams lookup fuel (ts, ps, cs) nc
-        | none => throw Err.other
-      | .param n => match allParams.find? (·.1 == n) with
-        | some (_, p) => match allTypes.find? (·.1 == p.typeName) with
-          | some (_, t) => pure (assocSet ts t.name t, assocSet ps p.name p, cs)
-          | none => throw Err.other
-        | none => throw Err.other) (ts, ps, cs)
+  | fuel + 1, acc, c =>
+    c.entries.foldlM (cacheEntry allTypes allParams lookup (updateCaches allTypes allParams lookup fuel))
+      (acc.1, acc.2.1, assocSet acc.2.2 c.name c)
 
 /-- Everything `from_xtce` reads from the document itself, given the namespace its path steps must match:
     (header date, space-system name, parameter types, parameters, containers). -/
